@@ -2,7 +2,7 @@
    Property theorems only (proofs in ClientProofs.v); model in Client.v (ClientRequest::send and the request builders).
    resolves = name resolution, site = what each origin answers for a target, net = any exchange function that answers
    by target alone: all universally quantified. *)
-From Hv Require Import Prelude Bytes TablesHttp TablesClient Http HttpRespSpec Client ClientProofs.
+From Hv Require Import Prelude Bytes BytesProofs TablesHttp TablesClient Http HttpRespSpec Client ClientProofs.
 Open Scope N_scope.
 
 (* The constants regenerated from client.rs on every run (tools/tables/client.py) are the ones the property names:
@@ -16,6 +16,38 @@ Theorem C07_client_tables :
   CLIENT_HTTP_PREFIX = [104;116;116;112;58;47;47] /\ CLIENT_HTTPS_PREFIX = [104;116;116;112;115;58;47;47] /\
   CLIENT_HTTP_PORT = 80 /\ CLIENT_HTTPS_PORT = 443 /\ CLIENT_LOCATION_HEADER_IS_LOCATION = true.
 Proof. exact client_tables. Qed.
+
+(* The client request builders (get / post / put / delete) and Client::parse_url: http://host/path?query is decomposed into
+   exactly its parts (path and query optional), anything else is refused, and the request built names the host, asks for
+   that path and query with the builder's method, and carries the data with its length (POST / PUT) or no body. *)
+Theorem C07_client_parse_url :
+  forall resolves host path query,
+    nob SLASH host = true -> nob QMARK path = true -> resolves false host = true ->
+    parse_url resolves (S_http ++ host ++ [SLASH] ++ path ++ [QMARK] ++ query) =
+      Some {| u_https := false; u_host := host; u_path := SLASH :: path; u_query := query |} /\
+    parse_url resolves (S_http ++ host ++ [SLASH] ++ path) =
+      Some {| u_https := false; u_host := host; u_path := SLASH :: path; u_query := [] |} /\
+    parse_url resolves (S_http ++ host) =
+      Some {| u_https := false; u_host := host; u_path := [SLASH]; u_query := [] |}.
+Proof. exact parse_url_http. Qed.
+
+Theorem C07_client_parse_url_rejects :
+  forall resolves s, strip_pre S_http s = None -> strip_pre S_https s = None -> parse_url resolves s = None.
+Proof. exact parse_url_rejects. Qed.
+
+Theorem C07_client_builders :
+  forall resolves s u m data,
+    parse_url resolves s = Some u ->
+    (exists st, client_nobody resolves m s = Some st /\
+       c_https st = u_https u /\ c_host st = u_host u /\ c_follow st = false /\ c_cookies st = [] /\
+       r_method (c_req st) = m /\ r_uri (c_req st) = u_path u /\ r_query (c_req st) = u_query u /\
+       r_version (c_req st) = V_HTTP11 /\ r_headers (c_req st) = [(HKnown H_Host, u_host u)] /\ r_content (c_req st) = None) /\
+    (exists st, client_body resolves m s data = Some st /\
+       c_https st = u_https u /\ c_host st = u_host u /\ c_follow st = false /\
+       r_method (c_req st) = m /\ r_uri (c_req st) = u_path u /\ r_query (c_req st) = u_query u /\
+       r_headers (c_req st) = [(HKnown H_Host, u_host u); (HKnown H_ContentLength, dec_render (N.of_nat (length data)))] /\
+       r_content (c_req st) = Some data).
+Proof. exact builders_spec. Qed.
 
 (* For chains of EVERY length (ends_at is inductive: no bound), every mix of 301/302/307, every Location that is an
    absolute-path reference (with or without query) or an http:// URI whose host resolves, every cookie list, method and
@@ -131,6 +163,9 @@ Example C07_client_observed_cookie_twice :
 Proof. eexists. split; [vm_compute; reflexivity|]. vm_compute; reflexivity. Qed.
 
 Print Assumptions C07_client_tables.
+Print Assumptions C07_client_parse_url.
+Print Assumptions C07_client_parse_url_rejects.
+Print Assumptions C07_client_builders.
 Print Assumptions C07_client_follows_chain.
 Print Assumptions C07_client_get_follows_chain.
 Print Assumptions C07_client_no_follow.
